@@ -317,6 +317,65 @@ theorem C14_written_is_queued (env : Env) (h : List SOp) (hno : ∀ op, op ∈ h
     | addBegin n => exact ih hno' _ h1 (by simp [stepS, stillAdding, h2])
     | addEnd c => exact ih hno' _ h1 h2
     | closeBegin c => simp [isCloseBegin] at hop
+    | credentials n => exact ih hno' _ h1 h2
+
+/-- **Never back to the parent's USER, over small-step histories.** For every carrier logged by a small-step history
+(adds in progress, closing windows, credential changes included) there is the prefix `h'` handled before it such that
+every frame queued on a distributed connection `c` went to a current child of that state, and — if there was a parent
+`p` then — `c` is not the parent's connection and the user of `c` is not the parent's user: a second connection of the
+parent's user is never served, whether or not the potential-parents cache still remembers the name
+(`checkNewChild` refuses by `parentName`, `checkNewParent` by `isChildName`; C13's invariant `pnc`). -/
+theorem C14_never_back_to_parent_user (env : Env) (h : List SOp) (e : Req × List Out) (he : e ∈ (runS env h).log)
+    (o : Out) (ho : o ∈ e.2) (c : ConnId) (hc : o.toConn c = true) :
+    ∃ h', h' <+: h ∧ c ∈ (runS env h').d.children ∧
+      ∀ p, (runS env h').d.parent = some p →
+        p ≠ c ∧ (runS env h').d.name c ≠ (runS env h').d.name p := by
+  rcases history_aux env h [] e he with h1 | ⟨h', hp, heq⟩
+  · simp [runS, SState.init] at h1
+  · rw [List.nil_append] at heq
+    rw [heq, runS_state] at ho
+    have hn := C14_not_to_others env (treeOps h') e.1 o c ho hc
+    refine ⟨h', hp, ?_, fun p hpar => ?_⟩
+    · rw [runS_state]; exact hn.1
+    · rw [runS_state] at hpar ⊢
+      exact ⟨fun hpc => hn.2.1 (hpc ▸ hpar), hn.2.2.1 p hpar⟩
+
+/-- **The configured login name is irrelevant.** Assigning `settings.credentials.username` while the session lasts
+(`SOp.credentials n`, any number of times, anywhere in a small-step history) changes nothing: the tree, everything
+queued and everything written for every carrier, the adds in progress and the closing connections are those of the
+history with the assignments left out. "The logged-in user" is the session's user (`DState.session`), not the
+configuration for the next login. -/
+theorem C14_configured_name_irrelevant (env : Env) (h : List SOp) :
+    (runS env h).d = (runS env (h.filter (fun op => !isCredentials op))).d ∧
+    (runS env h).log = (runS env (h.filter (fun op => !isCredentials op))).log ∧
+    (runS env h).sent = (runS env (h.filter (fun op => !isCredentials op))).sent ∧
+    (runS env h).adding = (runS env (h.filter (fun op => !isCredentials op))).adding ∧
+    (runS env h).closing = (runS env (h.filter (fun op => !isCredentials op))).closing := by
+  have hf : forget (runS env h) = runS env (h.filter (fun op => !isCredentials op)) := by
+    unfold runS
+    rw [forget_foldl]
+    rfl
+  refine ⟨?_, ?_, ?_, ?_, ?_⟩
+  · exact (congrArg SState.d hf : (forget (runS env h)).d = _)
+  · exact (congrArg SState.log hf : (forget (runS env h)).log = _)
+  · exact (congrArg SState.sent hf : (forget (runS env h)).sent = _)
+  · exact (congrArg SState.adding hf : (forget (runS env h)).adding = _)
+  · exact (congrArg SState.closing hf : (forget (runS env h)).closing = _)
+
+/-- **Own = the session's user, whatever is configured.** Right after the configured name was set to `n` (any `n`, the
+session's own name or another account): a carrier of the session's user is neither forwarded nor answered, and every
+other search carrier — the one of user `n` included — goes to every current child, fields preserved. -/
+theorem C14_own_is_session_user (env : Env) (h : List SOp) (n : Name) (r : Req) :
+    (runS env (h ++ [.credentials n])).configured = some n ∧
+    (runS env (h ++ [.credentials n])).d = (runS env h).d ∧
+    ((runS env h).d.session = some r.user → handle env (runS env (h ++ [.credentials n])).d r = []) ∧
+    ((runS env h).d.session ≠ some r.user → r.IsSearch →
+      forward (runS env (h ++ [.credentials n])).d r =
+        (runS env h).d.children.map (fun c => Out.fwd c r.outUnknown r.user r.ticket r.query)) := by
+  have hd : (runS env (h ++ [.credentials n])).d = (runS env h).d := by rw [runS_append]; rfl
+  refine ⟨by rw [runS_append]; rfl, hd, fun hown => ?_, fun hown hs => ?_⟩
+  · rw [hd]; exact (C14_own_silent env _ r hown).1
+  · rw [hd]; exact forward_foreign _ r hown hs
 
 /-- **What a protocol-following peer can read.** Every frame queued for a carrier is written in the form the protocol
 prescribes for its connection, whichever port the connection came through: a forwarded request travels on a distributed
@@ -387,5 +446,25 @@ example : (runS demoEnv demoC).sent =
     (runS demoEnv demoC).closing = [] ∧ (runS demoEnv demoC).d.children = [2] := by decide
 example : ((runS demoEnv demoC).log.map (fun e => e.2.length)) = [4, 4, 2] := by decide
 example : wireObf .distributed true = false ∧ wireObf .peer true = true ∧ wireObf .peer false = false := by decide
+
+/-! The configured name changes during the session (user 5's account is stored for the next login): a search of user 5 is
+still passed on and answered, one of the session's user (0) is not. And the parent's user (1, connection 0) connecting a
+second time after 20 further names were proposed is not a child: the parent's search reaches connection 21 (user 2) only. -/
+def demoCr : List SOp :=
+  [.tree (.sessionInit 0), .tree (.initialized 1 false), .credentials 5, .search ⟨.server 3 49, 5, 77, "rock"⟩,
+   .search ⟨.server 3 49, 0, 78, "rock"⟩]
+
+example : (runS demoEnv demoCr).configured = some 5 ∧ (runS demoEnv demoCr).d.session = some 0 ∧
+    (runS demoEnv demoCr).log =
+      [(⟨.server 3 49, 5, 77, "rock"⟩, [.fwd 0 49 5 77 "rock", .reply 5 77 0 ["a"] ["b"]]),
+       (⟨.server 3 49, 0, 78, "rock"⟩, [])] := by decide
+
+def demoPb : List Op :=
+  [.sessionInit 0, .potentialParents [1], .initialized 1 true, .level 0 0,
+   .potentialParents (List.replicate 20 3), .initialized 1 false, .initialized 2 false]
+
+example : (run demoPb).parent = some 0 ∧ (1 ∉ (run demoPb).potential) ∧ (run demoPb).children = [2] ∧
+    (run demoPb).name 1 = 1 ∧ 1 ∈ (run demoPb).live ∧
+    forward (run demoPb) ⟨.distributed 49, 5, 77, "rock"⟩ = [.fwd 2 49 5 77 "rock"] := by decide
 
 end AioslskVerif.C14
